@@ -250,7 +250,7 @@ def judge(ctx, case):
             ctx.classes["unjudged:data_not_in_general_position"] += 1
             continue
         facname = ":".join(f)
-        info = dict(full, factor=facname)
+        info = dict(full, factor=facname, observed_columns_per_cell=zf.shape[1] / max(1, j.shape[1]), observed_rank=rx)
         if not indep:
             ctx.fail("coding", info, f"{formula!r}: the {zf.shape[1]} columns of grouping factor {facname} have rank {rx}; "
                      f"group-by-cell space has dimension {rr}", "dependent")
@@ -282,7 +282,13 @@ def _kf_simple_rule(case, clause, detail):  # pylint: disable=unused-argument
     for f, (effects, has_int) in fams.items():
         if ":".join(f) != case.get("factor"):
             continue
-        return simple_rule_columns(effects, has_int, frame) != closure_dim(effects, has_int, frame)
+        simple = simple_rule_columns(effects, has_int, frame)
+        if simple == closure_dim(effects, has_int, frame):
+            return False
+        # only the recorded deviation is known: the blocks are as wide as the simplified rule makes them.  Any other
+        # width in the same family of inputs is a different violation and is reported.
+        seen = case.get("observed_columns_per_cell")
+        return seen is None or abs(seen - simple) < 1e-9
     return False
 
 
